@@ -9,6 +9,8 @@ RouteOp(k)  == IF k.e = "Sprint" THEN SPrint(k.ts) ELSE SPrintf(k.f, k.ts)
 RouteSB(k)  == SBRun(<<RouteOp(k)>>)                                              \* StringBuilder.Print / Printf
 RouteFn(k)  == Sprintfn(<<RouteOp(k)>>)                                           \* SafePrinter inside Sprintfn
 RouteSF(k)  == Sprint(<<TObj(990, {"SF"}, <<RouteOp(k)>>, <<>>, <<>>, <<>>)>>)    \* SafePrinter inside a SafeFormat method
+\* ... whatever directive the SafeFormatter itself is printed with
+RouteSFv(k, f) == Sprintf(f, <<TObj(990, {"SF"}, <<RouteOp(k)>>, <<>>, <<>>, <<>>)>>)
 C16Holds(k, r) ==
   (k.e \in {"Sprint", "Sprintf"}) =>
     LET sb == RouteSB(k)  fn == RouteFn(k)  sf == RouteSF(k) IN
@@ -18,6 +20,8 @@ C16Holds(k, r) ==
                   /\ NormOf(Out(sb)) = NormOf(Out(r))
                   /\ NormOf(Out(fn)) = NormOf(Out(r))
                   /\ NormOf(Out(sf)) = NormOf(Out(r))
+                  /\ \A f \in {FplusV, FsharpV, F6v, Fd} :
+                        LET v == RouteSFv(k, f) IN ~Exc(v) /\ NormOf(Out(v)) = NormOf(Out(r))
 
 
 Holds(name, cond) == IF cond THEN TRUE ELSE PrintT(<<"INVARIANT-FAILED", name, c>>) /\ FALSE
